@@ -88,6 +88,74 @@ def conv_contract(name, src_kind):
     return c
 
 
+# ---- C05 -------------------------------------------------------------------------------------------------------------
+def value_contract(name, kind):
+    def c(orig, x, model, *a, **k):
+        r = orig(x, model, *a, **k)
+        cx = ctx("C05")
+        try:
+            if isinstance(model, dict) and numeric(model) and all(isinstance(key, tuple) for key in model):
+                p = ref.from_raw(kind, dict(model))
+                xs = x if isinstance(x, dict) else dict(enumerate(x))
+                if all(v in xs for v in p.vars()):
+                    cx.count("suite:value-contracts")
+                    want = float(p.value({v: xs[v] for v in p.vars()}))
+                    if abs(float(r) - want) > 1e-9 * float(max(p.sumabs(), 1)):
+                        cx.violation("suite:%s:wrong-value" % name, "%s(%r, %r) = %r, expected %r" % (name, x, dict(model), r, want), where())
+        except Exception as e:   # noqa
+            cx.exc["contract-skipped:%s" % type(e).__name__] += 1
+        return r
+    return c
+
+
+def arith_contract(clsname, name):
+    import operator
+    OPS = {"__add__": operator.add, "__radd__": lambda a, b: b + a, "__sub__": operator.sub, "__rsub__": lambda a, b: b - a,
+           "__mul__": operator.mul, "__rmul__": lambda a, b: b * a, "__neg__": None, "__pow__": operator.pow, "__truediv__": None}
+
+    def c(orig, self, *a, **k):
+        kind = kind_of_model(self, None)
+        before = dict(self) if kind else None
+        r = orig(self, *a, **k)
+        cx = ctx("C05")
+        try:
+            if kind is None or r is NotImplemented or not numeric(before) or not isinstance(r, dict) or not numeric(r):
+                return r
+            ps = ref.from_raw(kind, before)
+            if name == "__neg__":
+                exp = ps.scale(-1)
+            else:
+                o = a[0]
+                if isinstance(o, dict):
+                    if not numeric(o) or not all(isinstance(key, tuple) for key in o):
+                        return r
+                    po = ref.from_raw(kind_of_model(o, kind), dict(o))
+                    if po.kind != kind:
+                        return r
+                elif isinstance(o, (int, float, np.integer, np.floating)) and not isinstance(o, bool):
+                    po = o
+                else:
+                    return r
+                if name == "__truediv__":
+                    if isinstance(po, ref.Poly) or not po:
+                        return r
+                    exp = ps.scale(1 / ref.frac(po))
+                elif name == "__pow__":
+                    if isinstance(po, ref.Poly) or po != int(po) or not 1 <= po <= 6:
+                        return r
+                    exp = ps ** int(po)
+                else:
+                    exp = OPS[name](ps, po)
+            cx.count("suite:arithmetic-contracts")
+            got = ref.from_raw(kind, dict(r))
+            if not got.close_to(exp, 1e-9 * float(max(exp.sumabs(), 1))):
+                cx.violation("suite:%s:wrong-result" % name, "%s.%s: %r with %r gave %r" % (clsname, name, before, a[:1], dict(r)), where())
+        except Exception as e:   # noqa
+            cx.exc["contract-skipped:%s" % type(e).__name__] += 1
+        return r
+    return c
+
+
 # ---- C09 -------------------------------------------------------------------------------------------------------------
 def bf_contract(name, kind):
     import itertools
@@ -247,6 +315,11 @@ def install():
         _S["ctx"][pid].max_violations = 30
     for n, k in (("pubo_to_puso", "bool"), ("puso_to_pubo", "spin"), ("qubo_to_quso", "bool"), ("quso_to_qubo", "spin")):
         attach(u, n, conv_contract(n, k))
+    for n, k in (("pubo_value", "bool"), ("qubo_value", "bool"), ("puso_value", "spin"), ("quso_value", "spin")):
+        attach(u, n, value_contract(n, k))
+    for n in ("__add__", "__radd__", "__sub__", "__rsub__", "__mul__", "__rmul__", "__neg__", "__pow__", "__truediv__"):
+        if n in vars(u.DictArithmetic):
+            attach(u.DictArithmetic, n, arith_contract("DictArithmetic", n))
     for n, k in (("solve_pubo_bruteforce", "bool"), ("solve_qubo_bruteforce", "bool"), ("solve_puso_bruteforce", "spin"), ("solve_quso_bruteforce", "spin")):
         attach(u, n, bf_contract(n, k))
     for n, k in (("approximate_pubo_extrema", "bool"), ("approximate_qubo_extrema", "bool"), ("approximate_puso_extrema", "spin"), ("approximate_quso_extrema", "spin")):
